@@ -78,7 +78,7 @@ def consequent_semantics(check: Check, rule: str = "M-sem", aspects: tuple[str, 
         def S(v: Any) -> Any:
             return _subst(freeze(stored), Sym("X"), freeze(v))
 
-        def one(decide: Any, shape: tuple, hs: tuple, en_a: bool, en_b: bool) -> None:
+        def one(decide: Any, shape: tuple, hs: tuple, en_a: bool, en_b: bool, debugging: bool = False) -> None:
             impl = MObj("TNorm", {"name": "implication"})
             outs = {}
             for nm, en in (("A", en_a), ("B", en_b)):
@@ -91,7 +91,8 @@ def consequent_semantics(check: Check, rule: str = "M-sem", aspects: tuple[str, 
                 concl.append(MObj("Proposition", {"variable": outs[nm], "hedges": hedges, "term": term, "__bool__": True}))
             me = MObj("Consequent", {"conclusions": concl, "text": "text"})
             ex, _ = new_exec(decide)
-            what = "conclusions " + " and ".join(f"{nm}{'' if (en_a if nm == 'A' else en_b) else ' (disabled)'} is {' '.join(h)}{' ' if h else ''}t{j}"
+            ex.debugging = debugging  # `settings.debugging`: logging must not change what is concluded
+            what = ("with settings.debugging on, " if debugging else "") + "conclusions " + " and ".join(f"{nm}{'' if (en_a if nm == 'A' else en_b) else ' (disabled)'} is {' '.join(h)}{' ' if h else ''}t{j}"
                                                  for j, (nm, h) in enumerate(zip(shape, hs)))
             before = [(c_, c_.fields["variable"], c_.fields["term"], list(c_.fields["hedges"])) for c_ in concl]
             try:
@@ -152,6 +153,9 @@ def consequent_semantics(check: Check, rule: str = "M-sem", aspects: tuple[str, 
                 for en_a, en_b in itertools.product((True, False), repeat=2):
                     cases += 1
                     Decisions().explore(lambda decide, shape=shape, hs=hs, en_a=en_a, en_b=en_b: one(decide, shape, hs, en_a, en_b))
+                    if en_a and en_b and len(shape) <= 2:
+                        cases += 1
+                        Decisions().explore(lambda decide, shape=shape, hs=hs: one(decide, shape, hs, True, True, True))
     except Unknown as u:
         raise AnalysisError(str(u)) from None
     for aspect, good in (("terms", "one activated term per conclusion on an enabled variable, in order of the conclusions; nothing for a disabled variable"),
